@@ -6,11 +6,13 @@
  "mode": "harness",
  "unwind": 2, "unwindset": ["typemember.0:4", "strcmp.0:4"],
  "kind": "bounded",
+ "cbmc_flags": ["--sat-solver", "cadical"],
  "bound": "struct/union with <= 3 members, each named or an anonymous struct/union with <= 2 named members (nesting <= 2); member names and the searched name 1-2 characters; offsets and the caller's running offset < 2^32",
  "timeout": 200,
  "expects": ["assertion_verif", "unwind"],
  "assumes": ["harness-enforced (typemember is recursive and loops over a linked list; PRE fixes the list shapes up to the bound; --unwind 2 for the recursion, --unwindset typemember.0:4,strcmp.0:4 for the member-list loop and strcmp on 3-byte strings, unwinding assertions on)",
              "strcmp is CBMC's library model",
+             "back end: cbmc --sat-solver cadical (the default minisat needs 20 s on the unchanged tree and > 200 s on some mutants for the clause HRET == SPEC_M; cadical < 1 s)",
              "offsets < 2^32 (part of the bound): no 64-bit wrap-around is exercised"]
 }
 */
